@@ -75,6 +75,8 @@ class C04(flow.Spec):
             return rng.randrange(1, 1 << 40)
 
         def flags():
+            if rng.random() < 0.3:
+                return pc.any_leaf_flags(rng, present=rng.random() < 0.85)
             f = rng.choice(pc.FLAG_SETS)
             if rng.random() < 0.7:
                 f |= P
@@ -82,9 +84,14 @@ class C04(flow.Spec):
                 f |= rng.choice([1 << 12, 1 << 30, 1 << 51, 0xfffff000])
             return f
 
+        if rng.random() < 0.4:
+            # the recursive entry of the boot root carries bits the CPU / an OS leaves there (Accessed, ...)
+            ops.append([18, 0, 3, pc.extra_mask(rng)])
         for _ in range(nops):
             r = rng.random()
             pg = rng.choice(pages)
+            if rng.random() < 0.04:
+                ops.append([18, pg, rng.choice([0, 1, 2, 3]), pc.extra_mask(rng)])
             if r < 0.42:
                 ops.append([0, pg, frame(), flags()])
             elif r < 0.55:
@@ -120,6 +127,8 @@ class C04(flow.Spec):
                     continue
                 k = rng.choice(list(slots)) if rng.random() < 0.95 else rng.randrange(4)
                 ops.append([7, k])
+                if rng.random() < 0.5:
+                    ops.append([18, 0, 3, pc.extra_mask(rng)])
             elif r < 0.94:
                 size = rng.choice([0, 1, 4095, 4096, 4097, 3 * 4096, rng.randrange(1, 6 * 4096), M64, M64 - 4094, M64 - 4095])
                 ops.append([8, frame(), size, flags()])
